@@ -46,11 +46,17 @@ print(json.dumps({"signature": sig, "method": "LALR", "tabversion": yacc.__tabve
 
 _RUNTIME = r'''
 import json
+try:
+    import simple_ddl_parser.cli as _cli_first  # imported before any parser exists (as `sdp` does)
+    _cli = "ok"
+except Exception as e:
+    _cli = "EXC " + type(e).__name__
 from simple_ddl_parser import DDLParser
 p = DDLParser("")
 lr = p.yacc
 prods = [[q.str, q.name, q.len, getattr(q, "func", None), getattr(getattr(q, "callable", None), "__name__", None)] for q in lr.productions]
 res = {}
+res["cli_import"] = _cli
 for name, ddl in [("t", "CREATE TABLE t (a int, b varchar(3) NOT NULL);"), ("alter_pk", "CREATE TABLE t (a int, b int);\nALTER TABLE t ADD PRIMARY KEY (a, b);"),
                   ("drop", "DROP TABLE s.old_users;"), ("seq", "CREATE SEQUENCE q START 1;")]:
     try:
